@@ -21,7 +21,7 @@ from ..core import Given
 ID = "C04"
 RULE = ("Case = beam (energy, power, element, sigma, divergence_x/y incl. 0 and unequal, length, placement = translation + "
         "three rotations, optionally below an intermediate node with its own transform), attenuator (step, clamp on/off, clamp_sigma), plasma placement, 1-3 ion species (+ optional neutral "
-        "with a null rate) with uniform / Gaussian-blob / sinusoidally modulated density, temperature and flow profiles, and "
+        "with a null rate at a drawn position of the composition list, list order as drawn or reversed) with uniform / Gaussian-blob / sinusoidally modulated density, temperature and flow profiles, and "
         "analytic stopping coefficients S_i(E,n,T) (incl. identically zero). Oracle: cross-section integral of Beam.density by "
         "48x48 Gauss-Legendre (polar Gauss-Legendre inside the clamp ellipse) against P/(e E m)/v * exp(-tau(z)) with tau from "
         "scipy.quad over my own transforms and the documented composite stopping formula; monotone on-axis density; zeros "
@@ -37,7 +37,7 @@ TOLERANCES = {
     "unit vector": "1e-12",
 }
 REQUIRED_LABELS = ["beam:flux:clamp", "beam:flux:diverging", "beam:flux:nonuniform", "beam:flux:no-stopping", "beam:flux:nested-nodes",
-                   "beam:flux:4-node-minimum"]
+                   "beam:flux:4-node-minimum", "beam:flux:neutral-before-ions"]
 
 AMU, E = K.atomic_mass, K.e
 BEAM_ELEMENTS = ["hydrogen", "deuterium", "tritium", "helium"]
@@ -95,7 +95,8 @@ def strategy(draw):
         "clamp": draw(st.booleans()), "clamp_sigma": draw(st.floats(0.5, 6.0)),
         "bt": [draw(st.floats(-1.0, 1.0)) for _ in range(3)], "br": [draw(st.floats(-180.0, 180.0)) for _ in range(3)],
         "pt": [draw(st.floats(-0.5, 0.5)) for _ in range(3)], "pr": [draw(st.sampled_from([0.0, 0.0, 30.0, -75.0, 90.0])) for _ in range(3)],
-        "species": species, "neutral": draw(st.booleans()),
+        "species": species, "neutral": draw(st.booleans()), "neutral_pos": draw(st.integers(0, 3)),
+        "order": draw(st.sampled_from(["as-drawn", "reversed"])),
         # beam and/or plasma below an intermediate scene-graph node with its own transform (None = child of the world)
         "bnode": draw(st.one_of(st.none(), st.none(), st.tuples(st.lists(st.floats(-1.0, 1.0), min_size=3, max_size=3),
                                                                  st.lists(st.floats(-180.0, 180.0), min_size=3, max_size=3)))),
@@ -181,9 +182,14 @@ def build(case):
         own.append((q, nf, tf, vf, v0, f))
     if case["neutral"]:
         el = EL.deuterium
-        comp.append(Species(el, 0, Maxwellian(lambda x, y, z: 1e17, lambda x, y, z: 5.0,
+        # the neutral sits at a drawn position of the composition list (first, in the middle, last): the documented sum runs
+        # over all species whatever their order
+        comp.insert(case.get("neutral_pos", len(comp)) % (len(comp) + 1),
+                    Species(el, 0, Maxwellian(lambda x, y, z: 1e17, lambda x, y, z: 5.0,
                                               (lambda x, y, z: Vector3D(0, 0, 0)), el.atomic_weight * AMU)))
         table[(el.name, 0)] = lambda e, n, t: 0.0       # the provider's null rate for neutrals
+    if case.get("order") == "reversed":
+        comp.reverse()
     plasma.composition = comp
     beam = Beam(parent=bparent, transform=ray_matrix(case["bt"], case["br"]))
     beam.plasma = plasma
@@ -303,6 +309,8 @@ def run(case, ctx):
         if not stopping:
             ctx.close(flux, flux0, "flux-constant-without-stopping", rtol=2e-6 if case["clamp"] else 1e-9)
     ctx.label("flux", "flux:clamp" if case["clamp"] else "flux:noclamp")
+    if case["neutral"] and stopping and case.get("neutral_pos", 9) % (len(case["species"]) + 1) < len(case["species"]) and case.get("order") != "reversed":
+        ctx.label("flux:neutral-before-ions")
     if case.get("bnode") or case.get("pnode"):
         ctx.label("flux:nested-nodes")
     if 1 + int(math.ceil(L / case["step"])) < 4:
@@ -351,6 +359,12 @@ def run(case, ctx):
         d00 = beam.direction(px * sig, py * sig, 0.0)
     ctx.check((d0.x, d0.y, d0.z) == (0, 0, 1) and (d00.x, d00.y, d00.z) == (0, 0, 1), "direction-before-source",
               lambda: "direction at z<=0 is %r / %r" % (d0, d00))
+    # the field is defined (unit vector, forward) right behind the source too, however small z is
+    for zt in (1e-160, 1e-300, 5e-324):
+        with ctx.cut("Beam.direction"):
+            dt = beam.direction(px * sig, py * sig, zt)
+        lt = math.sqrt(dt.x ** 2 + dt.y ** 2 + dt.z ** 2)
+        ctx.check(abs(lt - 1) <= 1e-12 and dt.z > 0, "direction-unit", lambda: "direction %r at z=%r" % (dt, zt))
     x0, y0, z0, z1 = px * sx, py * sy, z, L
 
     def sxy(zc):
